@@ -29,7 +29,7 @@ OBLIGATIONS = [
 N_QUICK, N_THOROUGH = 200, 2500
 PARALLEL = 8
 SHARD = 40
-RULE = ("seeded mix of: (tree) random python value trees over None/bool/int/float/str/list/tuple/"
+RULE = ("seeded mix of: (tree) random python value trees over None/bool/int/float/str/list/tuple (up to 13 items)/"
         "set/dict/namedtuple/SimpleRepr test classes/message_type messages, wire-safe and unsafe; "
         "(custom) the classes with a hand written repr with generated contents; (agentdef) AgentDef "
         "with generated routes, costs and extra attributes through the wire and through pickle; "
@@ -564,6 +564,9 @@ def g_tree(rng, depth, safe):
     if k < 0.2:
         return ["L", [sub() for _ in range(n)]]
     if k < 0.38:
+        if rng.random() < 0.15:
+            # more than 10 items: the decoder must order the keys "0".."12" by int(), not as strings
+            return ["T", [g_scalar(rng, safe) for _ in range(rng.randint(11, 13))]]
         return ["T", [sub() for _ in range(n)]]
     if k < 0.58:
         keys = rng.sample(KEYS, n)
